@@ -75,6 +75,7 @@ impl LinkModes {
 
 pub(crate) struct Reader {
     read_mode: LinkReadMode,
+    error_mode: LinkErrorMode,
     parser: Parser,
     buffer: ReadBuffer,
     /// where the bytes currently in the buffer were read from
@@ -137,6 +138,7 @@ impl Reader {
 
         Self {
             read_mode: link_modes.read_mode,
+            error_mode: link_modes.error_mode,
             parser: Parser::new(link_modes.error_mode),
             buffer: ReadBuffer::new(buffer_size),
             addr: PhysAddr::None,
@@ -177,6 +179,16 @@ impl Reader {
                 match self.parse_buffer(payload, level)? {
                     None => {
                         if self.read_mode == LinkReadMode::Datagram {
+                            if self.error_mode == LinkErrorMode::Discard
+                                && self.buffer.num_bytes_unread() > 0
+                            {
+                                // The datagram ends inside something that began like a frame. Nothing more
+                                // will arrive for it, so it is noise like any other: keep searching the
+                                // rest of the datagram for a frame one byte further on
+                                self.buffer.advance_read(1);
+                                self.parser.reset();
+                                continue;
+                            }
                             // We didn't read a frame this iteration even though there was data in the buffer.
                             // This means that our datagram didn't contain a complete frame
                             tracing::warn!("Partial datagram of length {length} did not contain a full link-layer frame. Resetting link-layer parser.");
